@@ -154,6 +154,14 @@ def abs (s : LS α) : SignaloModel.Median.MS α :=
   let ord := walkFrom s.buffer s.buffer.length s.head
   { order := ord, cursor := s.cursor, med := ord.findIdx (fun p => p.1 == s.median) }
 
+/-- `Median::min()`: the value in slot `head` -/
+def minAcc (s : LS α) : Option α := (s.buffer[s.head]?).bind (·.value)
+/-- `Median::median()`: the value in slot `median` -/
+def medAcc (s : LS α) : Option α := (s.buffer[s.median]?).bind (·.value)
+/-- `Median::max()` as implemented: the value in the slot before `cursor` -/
+def maxAcc (s : LS α) : Option α :=
+  (s.buffer[(s.cursor + s.buffer.length - 1) % s.buffer.length]?).bind (·.value)
+
 end SignaloModel.MedianL
 
 open SignaloModel.MedianL in
